@@ -143,6 +143,7 @@ func TestCoincidentPartialProducts(t *testing.T) {
 			rec.Discarded("sw:excluded shape of open finding " + sig)
 			return
 		}
+		rec.Begin("sw", c)
 		rec.Report(rt, "sw", c, runSW(c))
 	})
 }
